@@ -16,7 +16,9 @@ RULE = ('cases = programs of def/use statements built over the 13 value types: (
         'phase, file order reversed, [act] after/before the definition); (chain) every directly well-typed chain of one '
         'and two intermediate definitions over 44 link kinds x every use context; (order) 2- and 3-statement programs '
         'over all phase combinations and all file orders; (dup) double definitions and redefinition of every builtin; '
-        '(cd) paths relative the current directory referenced before/after cd; (rand) seeded programs of 2..7 '
+        '(cd) paths relative the current directory referenced before/after cd; (twice) one statement that references '
+        'the same symbol in two contexts demanding different types, in both orders, directly and through a string '
+        'definition; (rand) seeded programs of 2..7 '
         'statements. Logic symbols are observed through what they do: transformers/matchers via the contents of '
         '`file f = TEXT -transformed-by ...`, programs via the probe argv, text-sources via file contents, '
         'files-sources via a dump of the created tree, file/files matchers and conditions via assertions whose '
@@ -27,9 +29,13 @@ RULE = ('cases = programs of def/use statements built over the 13 value types: (
 ASSUMPTIONS = [
     'the oracle is vf/models/symbols.py, written from `exactly help` (def, concept symbol/type, syntax STRING, LIST, '
     'PATH, TEXT-SOURCE, PROGRAM, PROGRAM-ARGUMENT, the logic types, builtin); nothing is read from exactly_lib',
+    'list symbols, and strings built from list/path symbols, inside a FILE-NAME: the manual is silent; the rule is '
+    'taken from the program\'s own error message ("Every symbol used as a path component of a path must be defined '
+    'as a string", with the chain of definitions it was reached through): such a reference, direct or through any '
+    'number of string definitions, is a type error',
     'left out because the manual leaves it open ("converted ... by using a naked SYMBOL-REFERENCE (in most places)"): '
-    'list symbols, and strings built from list/path symbols, inside file names and program names; a path symbol in a '
-    'FILE-NAME anywhere but at its start; text glued directly to a path reference (@[P]@x); INTEGERs that are not '
+    'list symbols, and strings built from list/path symbols, inside program names; '
+    'text glued directly to a path reference (@[P]@x); INTEGERs that are not '
     'integer literals; a list that renders as an integer inside an INTEGER',
     'a path reference (direct, or at the start of a referenced string, transitively) as FILE-NAME after an explicit '
     'RELATIVITY is taken to be an error ("If FILE-NAME is an absolute path, then RELATIVITY must not be given"); a '
@@ -402,6 +408,12 @@ def cases(tier, seed):
                                                     M.PHASES):
             for order in ('def-cd-use', 'cd-def-use', 'def-use-cd'):
                 yield {'part': 'cd', 'rel': rel, 'ph': [p_def, p_cd, p_use], 'order': order}
+    # ---- twice: one statement, the same symbol in two contexts
+    for shape in TWICE:
+        for d in DEF_KINDS:
+            for rev in (False, True):
+                for deep in (0, 1):
+                    yield {'part': 'twice', 'd': d, 'shape': shape, 'rev': rev, 'deep': deep}
     # ---- chain
     for d, links in _chains():
         yield {'part': 'chain', 'd': d, 'links': links}
@@ -585,6 +597,59 @@ def build_chain(case):
     if batch:
         ret.insert(0, (key0 + ('accepted-uses',), _finish(base + batch)))
     return ret
+
+
+# ---- one statement that references the same symbol twice, in contexts that demand different types ---------------
+def _twice_table():
+    """name -> (phase, f(X, k) -> [contexts in which X is referenced, each as a function building a piece])"""
+    t = {}
+
+    def y(k):
+        return 'Y' + k
+
+    def two(a, b, rev):
+        return [b, a] if rev else [a, b]
+
+    t['fs-contents+name'] = ('setup', lambda X, k, rev: [dirst(k, ['lit', two(
+        ['file', N(T('fa')), ['str', S(R(X)), None]], ['file', N(T('n-'), R(X)), None], rev)])])
+    t['fs-contents+dirname'] = ('setup', lambda X, k, rev: [dirst(k, ['lit', two(
+        ['file', N(T('fb')), ['str', S(T('v '), R(X)), None]], ['dir', S(T('pre-'), R(X)), None], rev)])])
+    t['tm-regex+equals'] = ('assert', lambda X, k, rev: [{'k': 'tm', 'id': k, 'tm': ['or', two(
+        ['matches', N(R(X))], ['equals', ['ref', X, 'a', None]], rev)]}])
+    t['program+argument'] = ('setup', lambda X, k, rev: [runst(['pref', X, [N(T('x' + k)), N(R(X))]])])
+    t['ts-ref+replacement'] = ('setup', lambda X, k, rev: [filest(k, ['ref', X, 'a', ['replace', N(T('b')), N(R(X))]])])
+    t['rel-symbol+name'] = ('setup', lambda X, k, rev: [defn('path', y(k), {'rel': ['sym', X], 'name': N(R(X))}),
+                                                        args(k, [N(R(y(k)))])])
+    t['regex+integer'] = ('setup', lambda X, k, rev: [filest(k, text_via(['filter', ['and', two(
+        ['contents', ['matches', N(R(X))]], ['line-num', ['cmp', '==', N(R(X))]], rev)]]))])
+    t['arg+arg-list'] = ('setup', lambda X, k, rev: [args(k, two(S(T('s '), R(X)), N(R(X)), rev))])
+    t['ts-str+transformer'] = ('setup', lambda X, k, rev: [filest(k, ['str', S(R(X)), ref(X)])])
+    t['list-elem+path-name'] = ('setup', lambda X, k, rev: [
+        defn('list', y(k), two(S(R(X)), N(T('z')), rev)),
+        defn('path', 'Z' + k, {'rel': 'tmp', 'name': N(R(X))}), args(k, [N(R(y(k))), N(R('Z' + k))])])
+    return t
+
+
+TWICE = _twice_table()
+
+
+def build_twice(case):
+    d, shape, rev, deep = case['d'], case['shape'], case['rev'], case['deep']
+    t, v = std_value(d)
+    stmts = _with_ph([defn(t, 'X0', v)], 'setup')
+    X = 'X0'
+    if deep:
+        if t not in ('string', 'list', 'path'):
+            return []
+        stmts += _with_ph([defn('string', 'X1', S(R('X0')))], 'setup')
+        X = 'X1'
+    ph, f = TWICE[shape]
+    try:
+        use = f(X, 'u1', rev)
+    except Exception:
+        return []
+    stmts += _with_ph(use, ph)
+    return [(('twice', d, shape, 'rev' if rev else 'fwd', 'deep' if deep else 'direct'), _finish(stmts))]
 
 
 # ---- seeded programs -----------------------------------------------------------------------------------------
@@ -1045,7 +1110,7 @@ def build_rand(case):
     return []
 
 
-BUILDERS = {'cd': build_cd, 'matrix': build_matrix, 'order': build_order, 'dup': build_dup, 'chain': build_chain, 'rand': build_rand}
+BUILDERS = {'twice': build_twice, 'cd': build_cd, 'matrix': build_matrix, 'order': build_order, 'dup': build_dup, 'chain': build_chain, 'rand': build_rand}
 
 
 # =============================================================================================================
